@@ -302,6 +302,50 @@ fn amount_tables(ex: &mut Ex, s: &mut String, it: &Items) {
     }
 }
 
+
+// ---------------------------------------------------------------------------------------------------------------
+// E6: inventory of potential panic sites (C04). Keyed structurally: (file, enclosing fn, kind, normalised expression).
+struct Sites { file: String, fnpath: Vec<String>, out: Vec<(String, String, String, String)> }
+impl Sites {
+    fn push(&mut self, kind: &str, expr: String) { let f = self.fnpath.join("::"); self.out.push((self.file.clone(), f, kind.to_string(), expr)); }
+}
+impl<'a> Visit<'a> for Sites {
+    fn visit_item_mod(&mut self, m: &'a ItemMod) { let n = m.ident.to_string(); if n != "tests" && n != "test" { self.fnpath.push(n); visit::visit_item_mod(self, m); self.fnpath.pop(); } }
+    fn visit_item_impl(&mut self, i: &'a ItemImpl) {
+        let ty = toks(&i.self_ty); let tr = i.trait_.as_ref().map(|(_, p, _)| toks(p)).unwrap_or_default();
+        self.fnpath.push(if tr.is_empty() { ty } else { format!("<{} as {}>", ty, tr) }); visit::visit_item_impl(self, i); self.fnpath.pop();
+    }
+    fn visit_impl_item_fn(&mut self, f: &'a ImplItemFn) { self.fnpath.push(f.sig.ident.to_string()); visit::visit_impl_item_fn(self, f); self.fnpath.pop(); }
+    fn visit_item_fn(&mut self, f: &'a ItemFn) { self.fnpath.push(f.sig.ident.to_string()); visit::visit_item_fn(self, f); self.fnpath.pop(); }
+    fn visit_expr_method_call(&mut self, m: &'a ExprMethodCall) {
+        let n = m.method.to_string();
+        if n == "unwrap" || n == "expect" || n == "unwrap_unchecked" { self.push("unwrap", toks(&m.receiver) + "." + &n); }
+        visit::visit_expr_method_call(self, m);
+    }
+    fn visit_expr_index(&mut self, i: &'a ExprIndex) { self.push("index", toks(i)); visit::visit_expr_index(self, i); }
+    fn visit_expr_binary(&mut self, b: &'a ExprBinary) {
+        let arith = matches!(b.op, BinOp::Add(_) | BinOp::Sub(_) | BinOp::Mul(_) | BinOp::Div(_) | BinOp::Rem(_) | BinOp::Shl(_) | BinOp::AddAssign(_) | BinOp::SubAssign(_) | BinOp::MulAssign(_) | BinOp::DivAssign(_) | BinOp::RemAssign(_) | BinOp::ShlAssign(_));
+        if arith && !(eval(&b.left).is_some() && eval(&b.right).is_some()) { self.push("arith", toks(b)); }
+        visit::visit_expr_binary(self, b);
+    }
+    fn visit_expr_cast(&mut self, c: &'a ExprCast) { visit::visit_expr_cast(self, c); }
+    fn visit_macro(&mut self, m: &'a Macro) {
+        let n = m.path.segments.last().map(|s| s.ident.to_string()).unwrap_or_default();
+        if ["panic", "unreachable", "unimplemented", "todo", "assert", "assert_eq", "assert_ne", "debug_assert", "debug_assert_eq", "debug_assert_ne"].contains(&n.as_str()) {
+            self.push("macro", format!("{}!({})", n, m.tokens.to_string().split_whitespace().collect::<Vec<_>>().join("")));
+        }
+    }
+}
+pub const PANIC_FILES: [&str; 13] = ["src/consensus/encode.rs", "src/consensus/endian.rs", "src/blockdata/transaction.rs", "src/blockdata/block.rs", "src/util/ringct.rs", "src/util/address.rs", "src/util/key.rs",
+    "src/util/amount.rs", "src/cryptonote/hash.rs", "src/cryptonote/onetime_key.rs", "src/cryptonote/subaddress.rs", "src/network.rs", "src/internal_macros.rs"];
+fn panic_inventory(outdir: &str) {
+    let mut all = vec![];
+    for f in PANIC_FILES { let file = read(f); let mut s = Sites { file: f.to_string(), fnpath: vec![], out: vec![] }; s.visit_file(&file); all.extend(s.out); }
+    all.sort();
+    let js: Vec<serde_json::Value> = all.iter().map(|(f, p, k, e)| serde_json::json!({"file": f, "fn": p, "kind": k, "expr": e})).collect();
+    std::fs::write(format!("{}/panic_sites.json", outdir), serde_json::to_string_pretty(&js).unwrap()).unwrap();
+}
+
 pub fn run(outdir: &str) -> Vec<String> {
     let mut ex = Ex { fails: vec![] };
     std::fs::create_dir_all(outdir).unwrap();
@@ -332,5 +376,6 @@ pub fn run(outdir: &str) -> Vec<String> {
     amount_tables(&mut ex, &mut s, &it);
     writeln!(s, "end Gen").unwrap();
     std::fs::write(format!("{}/Amount.lean", outdir), s).unwrap();
+    panic_inventory(outdir);
     ex.fails
 }
